@@ -280,6 +280,8 @@ def _suite_real_runs(tier):
         c.case(repr(sorted(cfg.items(), key=str)), True)
         c.count(cfg["mode"])
         c.count("clustering" if cfg["clustering"] else "no_clustering")
+        if cfg.get("raised"):
+            c.count("run_raised(" + cfg["mode"] + ")")
     for f in found:
         c.disagree(input=f["config"], impl=f["what"], model="every row is one coherent record (C07 theorems)", seed=f["seed"])
     if log:
@@ -334,7 +336,12 @@ def _oracle_real_runs(rng, n_runs, log=None, stop_after=3):
             log.append(cfg)
 
         def T(u):
-            return 4.0 * u - 2.0
+            # one point at a time, written coordinate by coordinate with a DIFFERENT marginal transform per coordinate (the
+            # style of the package's quickstart): handing it a whole batch, or mixing rows with columns, changes the result
+            x = np.zeros_like(u)
+            for j in range(d):
+                x[j] = (4.0 + j) * u[j] - 2.0 - 0.5 * j
+            return x
 
         def L1(x):
             return -0.5 * float(np.sum((x - 0.3) ** 2)) * 4.0
@@ -419,8 +426,9 @@ def _oracle_real_runs(rng, n_runs, log=None, stop_after=3):
                     if bad:
                         break
         except Exception as e:  # noqa
-            # crashes are other properties' business (C18); not a coherence violation
-            pass
+            # crashes are other properties' business (C18); not a coherence violation — but a run that raised checked
+            # nothing after that point, so it is made visible in the evidence histogram
+            cfg["raised"] = f"{type(e).__name__}: {str(e)[:80]}"
         if bad:
             found.append({"what": bad[0], "config": cfg, "seed": seed})
             if len(found) >= stop_after:
